@@ -136,7 +136,7 @@ func dirFiles(p *Pkg, dir string) []string {
 }
 
 // shapeEdit applies one edit; the first edit (step 1) is the one the shape is about; for tmpdir the first two are
-// (break the command, repair it and drop a source).
+// (break the command, repair it and drop a source), for tool the second one changes the names of the tool's outputs.
 func shapeEdit(r *lib.Rng, st *shapeState, kind string, step int) Edit {
 	first := step == 1
 	st.counter++
@@ -337,7 +337,10 @@ func shapeEdit(r *lib.Rng, st *shapeState, kind string, step int) Edit {
 			k := lib.Pick(r, []string{"tool-src", "tool-src", "tool-cmd", "use-src", "comment", "rebuild",
 				"tool-out-rename-new", "tool-out-rename-new", "tool-out-rename-same", "tool-out-add", "tool-out-drop"})
 			if first {
-				k = lib.Pick(r, []string{"tool-src", "tool-src", "tool-out-rename-new", "tool-out-rename-same", "tool-out-add"})
+				k = "tool-src"
+			}
+			if step == 2 { // the second targeted edit: the tool's output names change
+				k = lib.Pick(r, []string{"tool-out-rename-new", "tool-out-rename-new", "tool-out-rename-same", "tool-out-add"})
 			}
 			gen := t("gen")
 			readsNames := false
